@@ -9,7 +9,7 @@ of the real loop,
    outcome := draw ; time_out := i + 1 ;
    with a censoring model: uncensored := draw ; outcome := where(uncensored == 1, outcome, 0) ;
    in the last iteration (i == t_max - 1): uncensored := 0 ;
-   exec(out_recode) ; for k, v in lags.items(): g[v] = g[k] ;
+   exec(out_recode) ; lagged = {v: g[k] for k, v in lags.items()} ; g[v] = lagged[v] for every v ;
 and the row stays in the loop while `outcome == 0 and uncensored == 1`.
 
 Everything random is a *parameter*: the draws (`StepDraw`: what `_predict` returned for this individual in this
@@ -125,10 +125,15 @@ def insertCov {V : Type} (c : Cov V) : List (Cov V) → List (Cov V)
 def orderCovs {V : Type} (cs : List (Cov V)) : List (Cov V) :=
   cs.foldr (fun c acc => insertCov c acc) []
 
-/-- the lag update `for k, v in lags.items(): g[v] = g[k]` (sequential, as Python executes it) -/
-def runLags {V : Type} : List (Nat × Nat) → Env V → Env V
+/-- assign every lag target from the row `src` (pairs in dict order; a repeated target keeps the last value, as
+    the dict comprehension does) -/
+def applyLags {V : Type} (src : Env V) : List (Nat × Nat) → Env V → Env V
   | [], e => e
-  | (k, v) :: ls, e => runLags ls (e.set v (e k))
+  | (k, v) :: ls, e => applyLags src ls (e.set v (src k))
+
+/-- the lag update `lagged = {v: g[k].copy() for k, v in lags.items()}; for v in lagged: g[v] = lagged[v]`:
+    every lag reads this interval's values (the row before the update), then all targets are assigned -/
+def runLags {V : Type} (lags : List (Nat × Nat)) (e : Env V) : Env V := applyLags e lags e
 
 section
 variable {V : Type} [NatCast V] [Add V] [Mul V] [DecidableEq V] [LT V] [DecidableLT V] [LE V] [DecidableLE V]
